@@ -12,7 +12,7 @@
 (***************************************************************************)
 EXTENDS Big, Json, TLC, Integers, Sequences, FiniteSets
 
-Tr == ndJsonDeserialize("trace.ndjson")
+Tr == TLCEval(ndJsonDeserialize("trace.ndjson"))
 Hdr == Tr[1]
 SeqSet(s) == {s[i] : i \in 1..Len(s)}
 
@@ -105,8 +105,11 @@ Compare(S, res, in, ob, hist2) ==
                  THEN {<<"C14", <<"snapshot tables differ", h>>>>}
                  ELSE IF ~ob.snapChanged /\ (Sn.snapCur # S.snapCur \/ Sn.snapPast # S.snapPast)
                  THEN {<<"C14", <<"snapshot not taken", h>>>>} ELSE {}
+      mintExp == IF h >= TAct("V204") /\ h < TAct("V204Burn") THEN DOMAIN MintTable \ TAssets ELSE {}
+      mintIss == IF DOMAIN ob.mintOther # mintExp \/ \E t \in mintExp \cap DOMAIN ob.mintOther : ob.mintOther[t] # TMintAmt(t)
+                 THEN {<<"C15", <<"minted supply outside the observed assets differs from the 2.0.4 table", h>>>>} ELSE {}
       syncIss == IF ob.synced # h THEN {<<"C02", <<"synced height is not the block height", h, ob.synced>>>>} ELSE {}
-  IN  balIss \cup outIss \cup toIss \cup holdIss \cup relIss \cup wIss \cup snapIss \cup syncIss
+  IN  balIss \cup outIss \cup toIss \cup holdIss \cup relIss \cup wIss \cup snapIss \cup syncIss \cup mintIss
 
 \* ------------------------------------------------------------------ behaviour
 Init == /\ l = 1 /\ cur = InitState /\ hist = EmptyFn /\ txh = {} /\ nIss = 0
